@@ -27,3 +27,18 @@ package metrics
 //@   trusted time-series lookup (sort.Search over the history); only the fact that a query was made is recorded
 //@   modifies ghost(ndelta)
 //@   ensures ghost(ndelta) == old(ghost(ndelta)) + 1
+
+//@ // History records are immutable once appended (C19): an increment adds its own record
+//@ // and leaves every earlier record - which a dump taken earlier may still share - exactly as
+//@ // it was. (Stated for the calls that do not trigger a roll-up: operation count not a multiple
+//@ // of 1000; roll-up replaces the history by a new slice of new or untouched records.)
+//@ func (c *Counter) addWithTime(delta int64, time time.Time) (r int64)
+//@   property C19
+//@   mode int
+//@   noframe
+//@   wraps_signed
+//@   requires c != nil && forall(i, 0, len(c.history), c.history[i] != nil && c.history[i].Delta != nil && allocated(c.history[i]) && allocated(c.history[i].Delta))
+//@   ensures delta != 0 && old(c.timeSeries) && (old(c.op) + 1) % 1000 != 0 ==> len(c.history) == old(len(c.history)) + 1
+//@   ensures delta != 0 && old(c.timeSeries) && (old(c.op) + 1) % 1000 != 0 ==> forall(i, 0, old(len(c.history)), c.history[i] == old(c.history[i]) && *c.history[i].Delta == old(*c.history[i].Delta))
+//@   ensures delta != 0 && old(c.timeSeries) && (old(c.op) + 1) % 1000 != 0 ==> c.history[len(c.history) - 1] != nil && c.history[len(c.history) - 1].Delta != nil && *c.history[len(c.history) - 1].Delta == delta
+//@   ensures delta == 0 ==> len(c.history) == old(len(c.history)) && forall(i, 0, len(c.history), c.history[i] == old(c.history[i]) && *c.history[i].Delta == old(*c.history[i].Delta))
